@@ -146,7 +146,7 @@ class C01(Sim):
             "scheduler (+ cache drops in odd seeds), then the same queries on a fresh instance in another order, then a "
             "sample of them alone on fresh instances; distinct = distinct (mesh class (V,E,F,chi,border loops,components,"
             "arities), sort mode, first-touch order of the lazy caches); non-trivial = >= 3 judged queries from >= 2 families")
-    FAULT_KINDS = ["cache_drop"]
+    FAULT_KINDS = ["cache_drop", "bad_index"]
     PROBES = ["border_vertex_ring", "interior_vertex_ring", "sort_off", "query_after_drop", "miss_query", "polygon_face",
               "genus>0", "multi_component", "fresh_single_query", "reordered_pass", "isolated_vertex"]
     QUICK_RUNS = 6000
@@ -285,6 +285,14 @@ class C01(Sim):
         weights = [cfg["clients"].count(n) or cfg["drop_rate"] * 4 for n in names]
         c = self.pick_client(rng, names, weights, cfg["burst"])
         r = self.client_rng(c)
+        if c == "dropper" and r.chance(0.3):
+            # fault 'bad_index': a query about an element that does not exist.  Its own outcome (None, an exception ...) is not judged;
+            # what is: every later answer is still right (a failing query must not leave a half-built cache behind)
+            qs = [q for q in sorted(Q) if len(self._gen_args(Rng(1), q)) >= 1]
+            q = r.choice(qs)
+            args = self._gen_args(r, q)
+            args[r.below(len(args))] = 10 ** 6 + r.below(5)
+            return {"c": c, "op": "bad_index", "q": q, "args": args}
         if c == "dropper":
             return {"c": c, "op": r.choice(["drop_connectivity", "drop_boundary", "drop_both"])}
         if c == "background":
@@ -342,6 +350,12 @@ class C01(Sim):
         self.calls += 1
         op = ev["op"]
         mesh = self.mesh
+        if op == "bad_index":
+            fam, fn, expf, mode = Q[ev["q"]]
+            o = call(fn, mesh, mesh.connectivity, *ev["args"])
+            self.faults["bad_index"] += 1
+            self.dropped = self.dropped  # (caches may or may not have been built by the failing call)
+            return o.brief()
         if op.startswith("drop_"):
             if op in ("drop_connectivity", "drop_both"):
                 o = call(mesh.connectivity.clear)
